@@ -44,7 +44,8 @@ type MemoryLoader struct {
 func (l *MemoryLoader) Load(name string) (Template, error) {
 	v, ok := l.Templates[name]
 	if !ok {
-		return nil, os.ErrNotExist
+		// Like the filesystem loader, say which template is missing.
+		return nil, &os.PathError{Op: "load", Path: name, Err: os.ErrNotExist}
 	}
 	return &stringTemplate{name, v}, nil
 }
